@@ -159,6 +159,133 @@ func UNFOLD_UserPrim(h *rt.H) {
 	}
 }
 
+// userPrimNil: a null where a user primitive unfolder sits. The property does not say
+// what a null means for user code, so only this is asserted: no crash, and if the
+// user function is called it is called with the zero value, at most once per null,
+// and no neighbouring member is disturbed.
+func userPrimNil[X primT](h *rt.H) {
+	var zero X
+	fn := func(to *uhold[X], v X) error {
+		to.v = v
+		to.n++
+		return nil
+	}
+	o := uouter[X]{N: 9}
+	u, e := gotype.NewUnfolder(&o, gotype.Unfolders(fn))
+	h.Assert("unfolder-created", e == nil)
+	if e != nil {
+		return
+	}
+	v := structform.EnsureExtVisitor(u)
+	var err error
+	step := func(e error) {
+		if err == nil {
+			err = e
+		}
+	}
+	step(v.OnObjectStart(-1, structform.AnyType))
+	step(v.OnKey("a"))
+	step(v.OnNil())
+	step(v.OnKey("l"))
+	step(v.OnArrayStart(2, structform.AnyType))
+	step(v.OnNil())
+	step(v.OnNil())
+	step(v.OnArrayFinished())
+	step(v.OnKey("m"))
+	step(v.OnObjectStart(1, structform.AnyType))
+	step(v.OnKey("k"))
+	step(v.OnNil())
+	step(v.OnObjectFinished())
+	step(v.OnKey("n"))
+	step(v.OnInt8(3))
+	step(v.OnObjectFinished())
+	h.ObserveBool("refused", err != nil)
+	if err != nil {
+		return
+	}
+	one := func(x uhold[X]) bool { return x.v == zero && x.n <= 1 }
+	ok := one(o.A) && len(o.L) == 2 && one(o.L[0]) && one(o.L[1]) && len(o.M) == 1 && o.N == 3
+	if ok {
+		x, has := o.M["k"]
+		ok = has && one(x)
+	}
+	h.Assert("null-is-zero", ok)
+}
+
+// UNFOLD_UserPrimNum (C13, C14): user primitive unfolders fed across the
+// integer/float divide - a float32/float64 event with a small integral value into
+// each of the ten integer parameter types, float32 and float64 events into float32
+// and float64 parameters (bit-exact where the width matches, exact widening and
+// narrowing of a value float32 holds) - and a null for every parameter type.
+func UNFOLD_UserPrimNum(h *rt.H) {
+	if h.Choose("null", 0, 1) == 1 {
+		switch h.Choose("param", 0, 13) {
+		case 0:
+			userPrimNil[bool](h)
+		case 1:
+			userPrimNil[string](h)
+		case 2:
+			userPrimNil[int8](h)
+		case 3:
+			userPrimNil[int16](h)
+		case 4:
+			userPrimNil[int32](h)
+		case 5:
+			userPrimNil[int64](h)
+		case 6:
+			userPrimNil[int](h)
+		case 7:
+			userPrimNil[uint8](h)
+		case 8:
+			userPrimNil[uint16](h)
+		case 9:
+			userPrimNil[uint32](h)
+		case 10:
+			userPrimNil[uint64](h)
+		case 11:
+			userPrimNil[uint](h)
+		case 12:
+			userPrimNil[float32](h)
+		case 13:
+			userPrimNil[float64](h)
+		}
+		return
+	}
+	x := []int8{-3, 0, 7, 100}[h.Choose("x", 0, 3)]
+	fl := func(v structform.ExtVisitor) error { return v.OnFloat32(float32(x)) }
+	if h.Choose("f64", 0, 1) == 1 {
+		fl = func(v structform.ExtVisitor) error { return v.OnFloat64(float64(x)) }
+	}
+	t := h.Choose("param", 0, 11)
+	h.Assume(x >= 0 || t < 5 || t >= 10)
+	switch t {
+	case 0:
+		userPrim(h, fl, int8(x))
+	case 1:
+		userPrim(h, fl, int16(x))
+	case 2:
+		userPrim(h, fl, int32(x))
+	case 3:
+		userPrim(h, fl, int64(x))
+	case 4:
+		userPrim(h, fl, int(x))
+	case 5:
+		userPrim(h, fl, uint8(x))
+	case 6:
+		userPrim(h, fl, uint16(x))
+	case 7:
+		userPrim(h, fl, uint32(x))
+	case 8:
+		userPrim(h, fl, uint64(x))
+	case 9:
+		userPrim(h, fl, uint(x))
+	case 10:
+		userPrim(h, fl, float32(x))
+	case 11:
+		userPrim(h, fl, float64(x))
+	}
+}
+
 // ---- UnfoldState / Expander: the events of the member are handed to user code
 
 type ulogT struct {
